@@ -306,6 +306,10 @@ CUSTOM_OWN = ['inplace_pow', 'from_bytes', '_mult_modulo_bytes']
 
 def units(prop, tier):
     from vf.pyunit import pyvc_unit
+    import functools
+    if prop == 'C14':
+        # DESIGN C14: the Python guards / normalisation of IntegerCustom's own methods also belong to "exact in every back end"
+        return [pyvc_unit(prop, 'int.custom.' + n, functools.partial(custom_registry, 'int'), [IC + '.' + n]) for n in CUSTOM_OWN]
     if prop != 'C16':
         return []
     out = []
@@ -326,3 +330,34 @@ def units(prop, tier):
             continue
         out.append(pyvc_unit(prop, 'int.custom.' + n, custom_registry, [IC + '.' + n]))
     return out
+
+
+# ----------------------------------------------------------------------------------------------------------------------
+# NOT PROVED (left unregistered or assumed, with the reason):
+# NOT PROVED: IntegerGMP.__init__ / __int__: 32-bit slot loops over mpz calls (invariant over 2**(32*slots), `value |= lsb << ...`);
+#             assumed with the shared clauses, bounded: bounded/bigint.py.
+# NOT PROVED: IntegerGMP.to_bytes: list comprehension over a symbolic number of limbs and a struct format of symbolic length.
+# NOT PROVED: IntegerGMP.sqrt / is_perfect_square / jacobi_symbol, IntegerGMP.__del__: not attempted (mpz_sqrt, mpz_perfect_square_p,
+#             mpz_jacobi would be assumed natives; the wrappers are two-line guards).
+# NOT PROVED: Crypto.Math.Numbers back-end selection: module-level try/except import statements, not a function -- PYVC verifies
+#             functions.  (Read: PYCRYPTODOME_DISABLE_GMP set or any ImportError/OSError/AttributeError from _IntegerGMP selects
+#             IntegerCustom; ImportError/OSError there selects IntegerNative.  The three classes satisfy the same clauses, which is
+#             what makes the selection unobservable up to the known findings K2/K3.)
+# NOT PROVED: the native functions themselves (monty_pow, monty_multiply, __gmpz_*): assumed "== exact mathematics", bounded harness.
+#
+# Known findings kept as failing obligations (known_findings.jsonl K2, K3): IntegerGMP pow() without modulus refuses exponents > 256;
+# IntegerGMP << refuses counts >= 65536 (ids: ...inplace_pow/__pow__.on_raise.ValueError.not_modulus_is_None_and_ival_exponent_256,
+# ...__lshift__/__ilshift__.on_raise.ValueError.ival_pos_65536).
+#
+# Vacuity / strength check (tools/mut.py C16 ..., exit 1 unless noted; obligation that caught it):
+#  _IntegerCustom.py  drop `self._value %= mod_value`                  -> inplace_pow.call_pre.be_base_be_modulus
+#                     `or mod_value == 1` removed                       -> inplace_pow.call_pre.be_modulus_1
+#                     exp_b = long_to_bytes(exp_value) (no max_len)     -> inplace_pow.call_pre.len_exp_size
+#                     term1_b = long_to_bytes(term2, numbers_len)       -> _mult_modulo_bytes.ensures.value
+#  _IntegerGMP.py     mpz_sub operands swapped in __sub__               -> __sub__.ensures.value
+#                     __iadd__: c_ulong(term) for negative term         -> __iadd__.ensures.value
+#                     __mod__: negative-modulus guard removed           -> __mod__.ensures.value / python_mod
+#                     inplace_inverse: `if result:` (inverted)          -> inplace_inverse.ensures.range/value, raises_iff.ValueError
+#                     gcd: `0 <= term < 65535` (equivalent: gcd_ui(a, 0) == |a|) -> exit 0 apart from the known findings
+#  (genuine defects found by these contracts and repaired in the tree: F3 argument mutation in IntegerCustom._mult_modulo_bytes,
+#   F5 fail_if_divisible_by(0), F7 >> / get_bit beyond 65536 bits)
